@@ -3,6 +3,7 @@ package props
 import (
 	"fmt"
 	"math/big"
+	"strings"
 	"testing"
 
 	"verifharness/core"
@@ -66,7 +67,9 @@ func TestC05(t *testing.T) {
 							}
 							if k%97 == 0 {
 								plain := append([]byte(nil), buf...)
-								for _, form := range [][2]string{{" ", ""}, {"\t\n", " "}, {"   ", ""}, {"        ", ""}, {"\n\n\n\n\n\n\n\n\n\n\n\n\n", ""}, {"                 ", ""}, {"                  ", ""}, {"                   ", ","}, {"                                ", ""}, {"0", ""}, {"", "0"}, {"", ".0"}, {"", "e0"}, {"", "."}, {"", "E"}} {
+								for _, form := range [][2]string{{" ", ""}, {"\t\n", " "}, {"   ", ""}, {"        ", ""}, {"\n\n\n\n\n\n\n\n\n\n\n\n\n", ""}, {"                 ", ""}, {"                  ", ""}, {"                   ", ","}, {"                                ", ""}, {"0", ""}, {"", "0"}, {"", ".0"}, {"", "e0"}, {"", "."}, {"", "E"},
+									// another number close behind (readers that look ahead by a fixed distance)
+									{"", ",5"}, {"", ", 5"}, {"", ",25]"}, {"", " ,7]"}, {"", ",1700000000000000001]"}, {"", "]9"}, {"", "\n12"}, {"", ", 123"}, {"", ",\t\t4"}, {"", ",  \"5\""}} {
 									buf = append(append(append(buf[:0], form[0]...), plain...), form[1]...)
 									if !run("window.form", buf) {
 										break win
@@ -104,12 +107,34 @@ func TestC05(t *testing.T) {
 			for i := 0; i < n; i++ {
 				b = append(b, byte('0'+rapid.IntRange(0, 9).Draw(rt, "d")))
 			}
-			b = append(b, []string{"", "", "", ".", ".0", ".5", "e", "e1", "E+2", "e-1", " ", "x", ",", "]", "\x00", "-", "+", "1e", ".e1"}[rapid.IntRange(0, 18).Draw(rt, "suffix")]...)
+			b = append(b, []string{"", "", "", ".", ".0", ".5", "e", "e1", "E+2", "e-1", " ", "x", ",", "]", "\x00", "-", "+", "1e", ".e1", ",5", ", 5", ",25]", " 7", ",12345678901234567890", "]9", ",\"1\""}[rapid.IntRange(0, 25).Draw(rt, "suffix")]...)
 			r.Begin("digits", b)
 			if err := core.Catch(func() error { return eval("digits", b) }); err != nil {
 				failRapid(rt, r, caseOf("C05", "digits", b, err), err)
 			}
 		})
+		// 2a. every digit count 1..25 with something close behind the literal (fixed-distance
+		// look-ahead, fast paths keyed on the digit count)
+		if e.enumStage("lengths", "literals of 1..25 digits (ones, nines, 1 then zeros, mixed) x prefixes {none, -, space, newline-tab-minus} x 22 tails (terminators followed by more digits, fractions, exponents, strings)", true) {
+			tails := []string{"", ",", ",5", ", 5", ",25]", " ,7]", ",1700000000000000001]", "]9", "\n12", ", 123", ",\t\t4", ",  \"5\"", " 5", "  55", "}1", ":1", ".5,1", "e1,1", "x1", "\x001", ",-1", ",0.5"}
+			idx := 0
+		lengths:
+			for n := 1; n <= 25; n++ {
+				for _, body := range []string{strings.Repeat("1", n), strings.Repeat("9", n), "1" + strings.Repeat("0", n-1), ("18446744073709551615922337203685")[:n], ("92233720368547758074294967295")[:n]} {
+					for _, pre := range []string{"", "-", " ", "\n\t-"} {
+						idx++
+						if !e.cfg.Mine(idx) {
+							continue
+						}
+						for _, tail := range tails {
+							if !run("lengths", []byte(pre+body+tail)) {
+								break lengths
+							}
+						}
+					}
+				}
+			}
+		}
 		// 2b. wrap-around aliases: k*M + r for moduli M at which an accumulator of some width (or a
 		// digit-count cut) would wrap, r an in-range value or a type bound
 		if e.enumStage("wraps", "k*M + r, both signs: M in {2^8 .. 2^512 (21 widths), 10^9 .. 10^40 (9 powers)} x k in {1, 2, 3, 5, 10, 255, 2^32+1, 10^19+3} x r in {0, 1, 7, 255, 2^31-1, 2^31, 2^32-1, 2^32, 2^63-1, 2^63, 2^64-1, 2^64, M-1, M/2}", true) {
@@ -166,6 +191,6 @@ func TestC05(t *testing.T) {
 				}
 			}
 		}
-		e.feed(feedOpts{shortlexQ: 3, shortlexT: 5, sweepQ: 30, sweepT: 2000}, func(kind string, in []byte) error { return eval(kind, in) })
+		e.feed(feedOpts{shortlexQ: 3, shortlexT: 5, sweepQ: 30, sweepT: 2000, numShapes: 1}, func(kind string, in []byte) error { return eval(kind, in) })
 	})
 }
